@@ -75,11 +75,16 @@ func c13Check(ctx *Ctx, idx int, cs c13Case) {
 			return time.Duration(dr.Intn(400)) * time.Microsecond
 		}
 	}
-	if cs.FaultSvc > 0 && cs.FaultSvc-1 < len(cf.F.Services) {
+	if fs := (cs.FaultSvc - 1) / 2; cs.FaultSvc > 0 && fs < len(cf.F.Services) {
 		ctx.Rep.Count("downstream failures injected in follow-up lookups")
-		cf.F.Services[cs.FaultSvc-1].Fault = func(c *fed.Call) *fed.FaultAction {
+		cf.F.Services[fs].Fault = func(c *fed.Call) *fed.FaultAction {
 			if !strings.Contains(c.Query, "node(id: $id)") {
 				return nil
+			}
+			if cs.FaultSvc%2 == 0 {
+				// an answer the EXECUTOR rejects while parsing (no `node` key): one error per lookup, told
+				// apart by its path only
+				return &fed.FaultAction{Kind: "replace", Data: map[string]interface{}{}}
 			}
 			return &fed.FaultAction{Kind: "errors", Data: []interface{}{map[string]interface{}{"message": "injected failure for " + fmt.Sprint(c.Variables["id"])}}}
 		}
@@ -95,7 +100,7 @@ func c13Check(ctx *Ctx, idx int, cs c13Case) {
 		for k := 0; k < cs.Repeats; k++ {
 			cf.F.ResetLogs()
 			resp := fed.Do(gw, cs.Query, cs.Vars, cs.OpName)
-			o := c13Obs{Data: hx.Canon(toGeneric(resp.Data)), Errors: errMsgs(resp.Errors), raw: toGeneric(resp.Data)}
+			o := c13Obs{Data: hx.Canon(toGeneric(resp.Data)), Errors: c13ErrKeys(resp.Errors), raw: toGeneric(resp.Data)}
 			for _, c := range cf.F.AllCalls() {
 				o.Calls = append(o.Calls, subRequestKey(cf.F.Services[c.Service].URL, c.Query, c.Variables))
 			}
@@ -159,6 +164,19 @@ func c13Check(ctx *Ctx, idx int, cs c13Case) {
 	if hx.Canon(mres["data"]) != first.Data && len(first.Errors) == 0 {
 		ctx.Rep.Fail(hx.Failure{Kind: "model-mismatch", Detail: "data differs between the real gateway and Model.gateway", Case: full, Impl: first.Data, Model: mres["data"], Index: idx})
 	}
+}
+
+// c13ErrKeys: an error is its message AND its path (two lookups failing the same way differ in
+// where), as a sorted list.
+func c13ErrKeys(errs []interface{}) []string {
+	var out []string
+	for _, e := range errs {
+		if m, ok := e.(map[string]interface{}); ok {
+			out = append(out, fmt.Sprint(m["message"])+" @ "+hx.Canon(m["path"]))
+		}
+	}
+	sort.Strings(out)
+	return out
 }
 
 // c13Class: node(id:) roots are scrubbed by whichever type Go's map iteration yields first (the
@@ -260,6 +278,56 @@ func genC13NodeRoots(r *hx.Rand) (coreCase, bool) {
 	return coreCase{FedSeed: seed, Query: "{ " + strings.Join(parts, " ") + " }", Kind: "query", Features: []string{"node-root", "directed:several-node-roots"}}, true
 }
 
+// genC13FanIn: directed stream — two root fields owned by two DIFFERENT services, both returning
+// Node objects with a leaf field owned by a THIRD service: the two root steps run concurrently
+// and both feed lookups into one batch of the third service, which rejects them all. Which
+// lookups fail is fixed; in which order they reach the parser is timing.
+func genC13FanIn(r *hx.Rand) (coreCase, int, bool) {
+	for try := 0; try < 40; try++ {
+		seed := r.U64() % 1000000
+		cf, err := buildCoreFed(seed, false, false)
+		if err != nil || cf.F.Spec.NumServices < 3 {
+			continue
+		}
+		base := func(t string) string { return strings.Trim(t, "[]!") }
+		type cand struct {
+			root  string
+			owner int
+			leafs map[int][]string // third-party owner -> leaf fields
+		}
+		var cands []cand
+		for _, q := range cf.F.Spec.Query {
+			ts := cf.F.Spec.Type(base(q.Type))
+			if ts == nil || !ts.Node || len(q.Args) > 0 {
+				continue
+			}
+			c := cand{root: q.Name, owner: q.Owner, leafs: map[int][]string{}}
+			for _, f := range ts.Fields {
+				if f.Name == "id" || len(f.Args) > 0 || cf.F.Spec.Type(base(f.Type)) != nil || cf.F.Spec.Abstract(base(f.Type)) != nil {
+					continue
+				}
+				c.leafs[f.Owner] = append(c.leafs[f.Owner], f.Name)
+			}
+			cands = append(cands, c)
+		}
+		for _, a := range cands {
+			for _, b := range cands {
+				if a.owner == b.owner || a.root == b.root {
+					continue
+				}
+				for x := 0; x < cf.F.Spec.NumServices; x++ {
+					if x == a.owner || x == b.owner || len(a.leafs[x]) == 0 || len(b.leafs[x]) == 0 {
+						continue
+					}
+					q := fmt.Sprintf("{ %s { %s } %s { %s } }", a.root, a.leafs[x][0], b.root, b.leafs[x][0])
+					return coreCase{FedSeed: seed, Query: q, Kind: "query", Features: []string{"directed:fan-in to a failing service"}}, x, true
+				}
+			}
+		}
+	}
+	return coreCase{}, 0, false
+}
+
 func runC13(ctx *Ctx) error {
 	ctx.Rep.Rule = "case = (generated federation incl. interfaces/unions, valid operation from the WILD generator profile, delay seed) sent k times to each of two independently built real gateways under seeded per-call delays, one case in four with every follow-up lookup of one service failing; " +
 		"oracle: identical canonical data, identical error set, identical multiset of sub-requests in every run; distinct = distinct case; non-trivial = ≥2 services"
@@ -285,7 +353,7 @@ func runC13(ctx *Ctx) error {
 			cs.DelaySeed = r.U64()%1000 + 1
 		}
 		if r.Chance(1, 4) {
-			cs.FaultSvc = 1 + r.Intn(3) // failures: the SET of reported errors must not depend on timing either
+			cs.FaultSvc = 1 + r.Intn(6) // failures (odd: downstream errors, even: answers the executor rejects): the SET of reported errors must not depend on timing either
 		}
 		c13Check(ctx, 100+k, cs)
 	}
@@ -298,6 +366,16 @@ func runC13(ctx *Ctx) error {
 		}
 		ctx.Rep.Count("stream:node-root")
 		c13Check(ctx, 500000+k, c13Case{coreCase: cc, Repeats: repeats * 2})
+	}
+	for k := 0; k < cases/5; k++ {
+		r := ctx.Rand.Fork()
+		cc, x, ok := genC13FanIn(r)
+		if !ok {
+			ctx.Rep.Count("stream:fan-in (no suitable federation)")
+			continue
+		}
+		ctx.Rep.Count("stream:fan-in to a failing service")
+		c13Check(ctx, 700000+k, c13Case{coreCase: cc, Repeats: repeats * 3, DelaySeed: r.U64()%1000 + 1, FaultSvc: 2*x + 1 + k%2})
 	}
 	for k := 0; k < cases/5; k++ {
 		r := ctx.Rand.Fork()
